@@ -5,4 +5,4 @@ Require Extraction.
 Require Import ExtrOcamlBasic.
 From LV Require Import Corr C18corr C11corr C15corr C16corr Seqcorr Rendercorr.
 Extraction Language OCaml.
-Extraction "model.ml" c18_check c11_check c15_check c16_check seq_check render_check.
+Extraction "model.ml" c18_check c11_check c15_check c16_check seq_check render_check sink_check.
